@@ -27,6 +27,7 @@ mod fault;
 mod hier;
 mod keys;
 mod oracle;
+mod server;
 mod upstream;
 mod world;
 
@@ -79,6 +80,14 @@ impl Bench {
     }
     fn truth(&self) -> &Truth {
         &self.world.truth
+    }
+}
+
+/// panic site relative to the repository (whatever checkout is being built)
+pub fn crate_site(site: &str) -> String {
+    match site.find("crates/") {
+        Some(i) => site[i..].to_string(),
+        None => site.to_string(),
     }
 }
 
@@ -157,7 +166,7 @@ fn run_steps(lab: &Lab, b: &Bench, steps: &[Step]) -> Vec<StepResult> {
         let (log, budget_exceeded) = up.take_log();
         let top = log.first().map(|e| &e.presented);
         let obs = match r {
-            Err(p) => Observed { kind: OutKind::Panic(format!("{} @ {}", p.message.chars().take(80).collect::<String>(), p.site())), rcode: 0, recs: vec![], alts: vec![], remapped: false },
+            Err(p) => Observed { kind: OutKind::Panic(format!("{} @ {}", p.message.chars().take(80).collect::<String>(), crate_site(&p.site()))), rcode: 0, recs: vec![], alts: vec![], remapped: false },
             Ok(None) => Observed { kind: OutKind::Err("empty stream".into()), rcode: 0, recs: vec![], alts: vec![], remapped: false },
             Ok(Some(Ok(m))) => observe_message(OutKind::Ok, &m, top),
             Ok(Some(Err(e))) => match &e {
@@ -281,12 +290,17 @@ fn target_class(r: &Rec) -> String {
     }
 }
 
+/// the distinct (qname, qtype) exchanges of a run: the top-level one first, the rest in a canonical
+/// order (hickory issues sub-queries in HashMap iteration order, which differs from run to run)
 fn distinct_exchanges(log: &[Exchange]) -> Vec<Exchange> {
     let mut v: Vec<Exchange> = Vec::new();
     for e in log {
         if !v.iter().any(|x| x.qname == e.qname && x.qtype == e.qtype) {
             v.push(e.clone());
         }
+    }
+    if v.len() > 2 {
+        v[1..].sort_by(|a, b| refzone::canonical_cmp(&a.qname, &b.qname).then(a.qtype.cmp(&b.qtype)));
     }
     v
 }
@@ -358,7 +372,7 @@ fn local_faults(rng: &mut Rng, exchanges: &[Exchange], has_top: bool, pool: &[Re
 }
 
 /// chain-level (compound) attacks for one query
-fn chain_faults(rng: &mut Rng, b: &Bench, q: &QueryCase, exchanges: &[Exchange]) -> Vec<Fault> {
+fn chain_faults(rng: &mut Rng, b: &Bench, q: &QueryCase, exchanges: &[Exchange], lab_tags: &[u16]) -> Vec<Fault> {
     let t = b.truth();
     let w = &b.world;
     let mut out = Vec::new();
@@ -372,6 +386,13 @@ fn chain_faults(rng: &mut Rng, b: &Bench, q: &QueryCase, exchanges: &[Exchange])
         for n in 0..2u64 {
             out.push(Fault::new(["attacker-keyset:resigned", "attacker-keyset:forged-data"][n as usize], "dnskey", vec![Prim::new("attacker-keyset").zone(&apex).n(n)]));
         }
+        // attacker KSK with the genuine KSK's (algorithm, key tag): the genuine DS gets compared with it
+        if t.zones[zi].keys.iter().any(|k| k.spec.signs_keyset && k.spec.alg == 15 && lab_tags.contains(&k.tag)) {
+            out.push(Fault::new("attacker-keyset:tag-matched", "dnskey", vec![Prim::new("attacker-keyset").zone(&apex).n(2)]));
+            out.push(Fault::new("attacker-keyset:tag-matched-forged-data", "dnskey", vec![Prim::new("attacker-keyset").zone(&apex).n(3)]));
+        }
+        // attacker ZSK slipped into the genuine key set, data forged under that key
+        out.push(Fault::new("attacker-keyset:zsk-injected", "dnskey", vec![Prim::new("attacker-keyset").zone(&apex).n(4)]));
         let Some(p) = t.zones[zi].parent else { continue };
         for n in 0..3u64 {
             out.push(Fault::new(["attacker-ds:unsigned", "attacker-ds:genuine-sig-kept", "attacker-ds:attacker-signed"][n as usize], "ds", vec![Prim::new("attacker-ds").zone(&apex).n(n)]));
@@ -416,6 +437,19 @@ fn chain_faults(rng: &mut Rng, b: &Bench, q: &QueryCase, exchanges: &[Exchange])
                 out.push(Fault::new("ancestor-denial:nodata", "denial", vec![Prim::new("replace-response").at(&q.qname, q.qtype).recs(w.parent_side_denial(p, &cut, false)).rcode(0)]));
             } else {
                 out.push(Fault::new("ancestor-denial:nxdomain", "denial", vec![Prim::new("replace-response").at(&q.qname, q.qtype).recs(w.ancestor_nxdomain(p, &cut, &q.qname)).rcode(3)]));
+            }
+        }
+    }
+    // a malicious operator of ANOTHER securely delegated zone signs a (forged) answer for the victim name
+    if !top.honest.is_negative() && q.qtype != ty::DNSKEY && q.qtype != ty::DS {
+        for (yi, y) in t.zones.iter().enumerate() {
+            if yi == zq || y.status != Status::Secure || y.keys.iter().all(|k| k.signer.is_none()) {
+                continue;
+            }
+            let relation = if refzone::is_subdomain(&q.qname, &y.apex) { "ancestor" } else if refzone::is_subdomain(&y.apex, &t.zones[zq].apex) { "descendant" } else { "unrelated" };
+            let signer = Rec { sec: SEC_AR, owner: y.apex.clone(), rtype: ty::NS, class: 1, ttl: 0, rdata: vec![0] };
+            for n in 0..2u64 {
+                out.push(Fault::new(&format!("cross-zone-signature:{}{}", relation, if n == 1 { "-forged-data" } else { "" }), "answer", vec![Prim::new("cross-zone-signature").at(&q.qname, q.qtype).n(n).recs(vec![signer.clone()])]));
             }
         }
     }
@@ -584,7 +618,10 @@ impl Judge<'_> {
             let nkeys = distinct_exchanges(&res.log).len();
             self.rep.max("max_upstream_exchanges_per_query", res.log.len() as f64);
             if res.budget_exceeded {
-                self.rep.count("upstream_exchange_budget_exceeded");
+                // not judged by this property (work amplification); recorded so that it is visible
+                self.rep.count("info_upstream_exchange_budget_exceeded_not_judged");
+                let desc = json!({"query": format!("{} {}", show(&st.qname), refzone::type_name(st.qtype)), "faults": st.faults.iter().map(|f| format!("{}|{}", f.kind, f.link)).collect::<Vec<_>>(), "upstream_exchanges": res.log.len()});
+                self.rep.note("amplification_example_not_judged", desc);
             }
             if res.obs.remapped {
                 self.rep.count("records_remapped_by_reencoding");
@@ -601,6 +638,15 @@ impl Judge<'_> {
             }
             for f in &st.faults {
                 self.rep.count(&format!("fault/{}/{}", f.kind.split(':').next().unwrap_or(""), f.link));
+                if f.kind.starts_with("attacker-keyset:") || f.kind.starts_with("fake-insecure-delegation:") || f.kind.starts_with("cross-zone-signature:") || f.kind.starts_with("attacker-ds:") {
+                    self.rep.count(&format!("faultvariant/{}", f.kind));
+                    if fresh && st.faults.len() == 1 {
+                        self.rep.count(&format!("faultvariant_outcome/{}/{}", f.kind, outcome));
+                        if std::env::var("C07_DUMP").is_ok_and(|d| d == format!("{}/{}", f.kind, outcome)) {
+                            eprintln!("DUMP {}", json!({"case": {"hier": self.hier_json, "steps": [st.to_json()]}, "obs": res.obs.to_json()}));
+                        }
+                    }
+                }
             }
             if !st.faults.is_empty() {
                 if st.faults.len() >= 2 {
@@ -624,19 +670,24 @@ impl Judge<'_> {
                 let min_steps = if needs_min { self.minimize(b, &steps[..=si], a.rule, &a.detail) } else { steps[..=si].to_vec() };
                 let last = min_steps.last().unwrap();
                 let via = if min_steps.len() > 1 { "|via-history" } else { "" };
-                let sig = if last.faults.is_empty() && min_steps.len() == 1 {
+                let sig = if a.rule == "validator-panic" {
+                    // the panic site is the discriminator, whatever input reached it
+                    a.detail.split_whitespace().collect::<Vec<_>>().join(" ")
+                } else if last.faults.is_empty() && min_steps.len() == 1 {
                     let zi = b.truth().responsible(&last.qname, last.qtype);
                     let z = &b.truth().zones[zi];
                     let kind = b.world.honest(&last.qname, last.qtype, true).kind;
                     format!("{}|honest|{}|{}", a.detail, kind, if !z.spec.signed { "unsigned" } else if z.spec.nsec3.is_some() { "nsec3" } else { "nsec" })
-                } else if a.rule == "validator-panic" {
-                    // the panic site is the discriminator, whatever input reached it
-                    a.detail.split_whitespace().collect::<Vec<_>>().join(" ")
                 } else if min_steps.len() > 1 {
                     // needs the history (validation cache): which faults came before matters less than that
                     format!("{}|via-history|{}", a.detail, if last.faults.is_empty() { "honest-step-after-tampering" } else { "tampered-step" })
                 } else if last.faults.len() > 1 {
                     format!("{}|multi-fault", a.detail)
+                } else if (a.rule == "secure-despite-broken-link" && matches!(a.detail.as_str(), "dnskey" | "own-rrsig:dnskey")) || (a.rule == "secure-rrset-incomplete" && a.detail == "dnskey") {
+                    // a DNSKEY RRset got by without a valid signature: the link is the discriminator, not the way it was broken
+                    format!("{}|{}", a.detail, last.faults[0].link)
+                } else if a.rule == "secure-despite-broken-link" {
+                    format!("{}|{}|{}", a.detail, last.faults[0].kind.split(':').next().unwrap_or(""), last.faults[0].link)
                 } else {
                     format!("{}|{}|{}", a.detail, last.faults[0].kind, last.faults[0].link)
                 };
@@ -655,6 +706,141 @@ impl Judge<'_> {
 }
 
 // ---------------------------------------------------------------------------------------------
+
+// ---------------------------------------------------------------------------------------------
+// second observation point: wire response of the server (Catalog -> ForwardZoneHandler -> Resolver)
+
+fn flags_from_label(s: &str) -> server::Flags {
+    let bit = |k: &str| s.find(k).and_then(|i| s.as_bytes().get(i + k.len())).is_some_and(|c| *c == b'1');
+    server::Flags { edns_do: bit("do"), ad: bit("ad"), cd: bit("cd"), rd: bit("rd") }
+}
+
+impl Judge<'_> {
+    /// One request through the real server path over a (tampered) upstream, judged on the wire bytes.
+    fn server_case(&mut self, b: &Bench, st: &Step, f: server::Flags) {
+        let t = b.truth();
+        let up = Upstream::new(b.world.clone(), self.lab.attacker.clone());
+        up.set_faults(st.faults.clone());
+        vrt::clock_reset(t.hier.now as u64);
+        let cat = match mon::catch(|| self.lab.rt.block_on(async { server::build_catalog(&up, b.trust.clone()) })) {
+            Ok(Ok(c)) => c,
+            Ok(Err(e)) => {
+                self.rep.inconclusive(&format!("server observation point: forwarder could not be built: {e}"));
+                return;
+            }
+            Err(p) => {
+                self.rep.inconclusive(&format!("server observation point: building the forwarder panicked: {}", p.message));
+                return;
+            }
+        };
+        let res = server::ask(&self.lab.rt, &cat, &st.qname, st.qtype, f);
+        self.rep.eval();
+        self.rep.count("server_requests");
+        let tampered = !st.faults.is_empty();
+        let mut alarms: Vec<(&'static str, String, Value)> = Vec::new();
+        match &res {
+            Err(e) if e.starts_with("PANIC") => alarms.push(("server-panic", e.clone(), json!(e))),
+            Err(_) => self.rep.count("server_no_response"),
+            Ok(w) => {
+                self.rep.count(&format!("server_rcode/{}/{}", if tampered { "tampered" } else { "honest" }, w.rcode));
+                if !f.rd {
+                    if w.rcode == 5 {
+                        self.rep.count("server_rd0_refused");
+                    }
+                } else if w.rcode == 0 || w.rcode == 3 {
+                    if w.ad {
+                        self.rep.count(&format!("server_ad1/{}", if tampered { "tampered" } else { "honest" }));
+                    }
+                    let answers: Vec<&Rec> = w.recs.iter().filter(|r| r.sec == SEC_AN && r.rtype != ty::RRSIG).collect();
+                    let genuine = |r: &Rec| -> (bool, bool) {
+                        // (is a genuine record, of a truly secure zone)
+                        let cands = t.genuine(&r.owner, r.rtype);
+                        let rd = hier::canon(r.rtype, &r.rdata);
+                        let m: Vec<usize> = cands.iter().filter(|(_, set)| set.contains(&rd)).map(|c| c.0).collect();
+                        (!m.is_empty(), m.iter().any(|z| t.zones[*z].status == Status::Secure))
+                    };
+                    for r in w.recs.iter().filter(|r| r.sec != SEC_AR && !matches!(r.rtype, ty::RRSIG)) {
+                        let (is_gen, in_secure) = genuine(r);
+                        let zs = t.zones_of_record(&r.owner, r.rtype);
+                        let zone_insecure = zs.iter().any(|z| t.zones[*z].status == Status::Insecure);
+                        if w.ad && !(is_gen && in_secure) {
+                            alarms.push(("ad-not-authentic", if is_gen { "record-of-insecure-zone".into() } else { "forged-record".into() }, json!({"record": r.to_json(), "flags": f.label()})));
+                        } else if !f.cd && !zone_insecure && !is_gen && r.sec == SEC_AN {
+                            alarms.push(("served-forged-to-cd0", "answer".into(), json!({"record": r.to_json(), "flags": f.label()})));
+                        }
+                    }
+                    if w.ad {
+                        // complete RRsets only
+                        let mut groups: Vec<(Name, u16)> = answers.iter().map(|r| (fold(&r.owner), r.rtype)).collect();
+                        groups.sort();
+                        groups.dedup();
+                        for (o, rt) in groups {
+                            let set: std::collections::BTreeSet<Vec<u8>> = answers.iter().filter(|r| fold(&r.owner) == o && r.rtype == rt).map(|r| hier::canon(rt, &r.rdata)).collect();
+                            let cands = t.genuine(&o, rt);
+                            if cands.iter().any(|(_, g)| set.is_subset(g) && set != *g) {
+                                alarms.push(("ad-not-authentic", "incomplete-rrset".into(), json!({"owner": show(&o), "type": rt, "flags": f.label()})));
+                            }
+                        }
+                    }
+                    // a negative conclusion handed to the client
+                    let mut n = st.qname.clone();
+                    let mut negative = false;
+                    let mut via_insecure = false;
+                    for _ in 0..12 {
+                        if answers.iter().any(|r| fold(&r.owner) == n && r.rtype == st.qtype) {
+                            break;
+                        }
+                        if st.qtype != ty::CNAME {
+                            if let Some(cn) = answers.iter().find(|r| fold(&r.owner) == n && r.rtype == ty::CNAME) {
+                                let target = refzone::cname_target(&cn.rdata);
+                                if target == n {
+                                    break;
+                                }
+                                if t.zones[t.responsible(&n, ty::CNAME)].status == Status::Insecure {
+                                    via_insecure = true;
+                                }
+                                n = target;
+                                continue;
+                            }
+                        }
+                        negative = true;
+                        break;
+                    }
+                    if negative && !via_insecure && !alarms.iter().any(|a| a.0 == "ad-not-authentic" || a.0 == "served-forged-to-cd0") {
+                        let zi = t.responsible(&n, st.qtype);
+                        if t.zones[zi].status == Status::Secure && (w.ad || !f.cd) {
+                            let k = refzone::ref_auth(&t.zones[zi].full, &n, st.qtype).first_step().kind;
+                            let exists = matches!(k, refzone::Kind::Answer | refzone::Kind::WildcardAnswer) || (st.qtype != ty::CNAME && matches!(k, refzone::Kind::CnameChain | refzone::Kind::WildcardCname));
+                            if exists {
+                                alarms.push(("false-denial-served", if w.ad { "ad1".into() } else { "cd0".into() }, json!({"name": show(&n), "qtype": st.qtype, "rcode": w.rcode, "ad": w.ad, "flags": f.label(), "ground_truth": k.as_str()})));
+                            }
+                        }
+                    }
+                }
+            }
+        }
+        for fl in &st.faults {
+            self.rep.count(&format!("server_fault/{}", fl.kind.split(':').next().unwrap_or("")));
+        }
+        let mut seen: Vec<(&'static str, String)> = Vec::new();
+        for (rule, detail, observed) in alarms {
+            if seen.contains(&(rule, detail.clone())) {
+                continue;
+            }
+            seen.push((rule, detail.clone()));
+            let sig = if rule == "server-panic" {
+                detail.clone()
+            } else if st.faults.is_empty() {
+                format!("{detail}|honest")
+            } else {
+                format!("{}|{}", detail, st.faults.iter().map(|x| x.kind.split(':').next().unwrap_or("").to_string()).collect::<Vec<_>>().join("+"))
+            };
+            let wire = res.as_ref().ok().map(|w| json!({"rcode": w.rcode, "ad": w.ad, "records": w.recs.iter().map(|r| r.to_json()).collect::<Vec<_>>()}));
+            let case = json!({"hier": self.hier_json, "steps": [st.to_json()], "server_flags": f.label(), "workload": "server"});
+            self.rep.violation(rule, &sig, case, json!("AD=1 only over authentic data of truly secure zones; nothing forged and no denial of existing secure data to a CD=0 client"), json!({"alarm": observed, "wire_response": wire}));
+        }
+    }
+}
 
 fn genkeys(n: usize) {
     let rng = ring::rand::SystemRandom::new();
@@ -692,9 +878,13 @@ fn main() {
                     }
                 }
                 // the honest signer's signature registry must know the whole zone before judging
-                let results = run_steps(&lab, &b, &steps);
                 let mut j = Judge { rep: &mut rep, lab: &lab, hier_json: h.to_json(), hier_hash: fnv64(h.to_json().to_string().as_bytes()) };
-                j.judge(&b, &steps, &results, "replay");
+                if let (Some(fl), Some(st)) = (c["server_flags"].as_str(), steps.last()) {
+                    j.server_case(&b, st, flags_from_label(fl));
+                } else {
+                    let results = run_steps(&lab, &b, &steps);
+                    j.judge(&b, &steps, &results, "replay");
+                }
             }
             Err(e) => eprintln!("bad replay case: {e}"),
         }
@@ -714,6 +904,10 @@ fn main() {
     rep.must("honest_insecure_proven_by_nsec3_parent", 3);
     rep.must("runs_with_3plus_upstream_responses", 1000);
     rep.must("double_fault_runs", 100);
+    rep.must("server_requests", 1000);
+    rep.must("server_ad1/honest", 50);
+    rep.must("server_rcode/tampered/2", 100);
+    rep.must("server_rd0_refused", 10);
     rep.must("history_tampered_steps", 100);
     rep.must("history_honest_after_tampered", 30);
     for k in RECORD_KINDS {
@@ -728,6 +922,9 @@ fn main() {
     }
     rep.must("fault/strip-denial/denial", 10);
     rep.must("fault/attacker-keyset/dnskey", 10);
+    rep.must("fault/cross-zone-signature/answer", 10);
+    rep.must("faultvariant/attacker-keyset:tag-matched-forged-data", 5);
+    rep.must("faultvariant/attacker-keyset:zsk-injected", 5);
     rep.must("fault/attacker-ds/ds", 10);
     rep.must("fault/attacker-chain/ds", 10);
     rep.must("fault/fake-insecure-delegation/denial", 10);
@@ -737,6 +934,7 @@ fn main() {
     rep.must("fault/insecure-soa-denial/denial", 5);
     let _ = (RESPONSE_KINDS, CHAIN_KINDS);
 
+    let attacker_tags = lab.attacker.tag_table();
     let collision = hier::find_collision(6000);
     match &collision {
         Some(c) => rep.note("key_tag_collision_tries", json!(c.tries)),
@@ -745,15 +943,17 @@ fn main() {
 
     let mut rng = ctx.rng("main");
     let thorough = ctx.is_thorough();
-    let n_hier = ctx.budget(64, 4800);
+    let n_hier = ctx.budget(96, 3200);
     let n_queries = if thorough { 14 } else { 9 };
     let cap_single = if thorough { 400 } else { 36 };
     let n_double = if thorough { 24 } else { 6 };
     let n_hist = if thorough { 8 } else { 4 };
+    let n_server = if thorough { 40 } else { 6 };
+    let server_on = ctx.extra.get("server").map_or(true, |v| v != "0");
 
     for hi in 0..n_hier {
         let global_idx = ctx.shard + ctx.nshards * hi;
-        let h = hier::gen_hier(&mut rng, global_idx, collision.as_ref());
+        let h = hier::gen_hier(&mut rng, global_idx, collision.as_ref(), &attacker_tags);
         let b = Bench::new(&h);
         let t = b.truth();
         let hj = h.to_json();
@@ -855,7 +1055,7 @@ fn main() {
         // ---- single faults, double faults, histories -------------------------------------------
         for (q, ex) in &recorded {
             let mut all = local_faults(&mut rng, ex, true, &pool, &tops, thorough);
-            all.extend(chain_faults(&mut rng, &b, q, ex));
+            all.extend(chain_faults(&mut rng, &b, q, ex, &attacker_tags));
             j.rep.add("single_faults_enumerated", all.len() as u64);
             let exhaustive = all.len() <= cap_single;
             if exhaustive {
@@ -903,6 +1103,26 @@ fn main() {
                 };
                 let results = run_steps(&lab, &b, &steps);
                 j.judge(&b, &steps, &results, "history");
+            }
+            // second observation point: the server's wire response
+            if server_on {
+                let honest_step = Step { qname: q.qname.clone(), qtype: q.qtype, faults: vec![] };
+                let all_flags = server::Flags::all();
+                for f in all_flags.iter() {
+                    let take = thorough || if f.rd { rng.chance(1, 2) } else { rng.chance(1, 8) };
+                    if take {
+                        j.server_case(&b, &honest_step, *f);
+                    }
+                }
+                for _ in 0..n_server {
+                    let f = rng.pick(&chosen).clone();
+                    let st = Step { qname: q.qname.clone(), qtype: q.qtype, faults: vec![f] };
+                    for _ in 0..2 {
+                        let mut fl = *rng.pick(&all_flags);
+                        fl.rd = true;
+                        j.server_case(&b, &st, fl);
+                    }
+                }
             }
         }
         if hi < 2 {
